@@ -117,7 +117,7 @@ PROPS = {
         'partial': "ratio() = hits / (hits + misses) is f64 arithmetic over the two modelled counters: computed and compared by the harness (suite cachet), not a Coq statement; striping of each counter over 256 atomics is abstracted to its sum (stripe index (hash % 25) * 10 < 256)",
     },
     'C19': {
-        'suites': [('cachepair', 200, 2000, ''), ('cacheqa', 200, 2000, ''), ('cachesa', 200, 2000, ''), ('cachecfg', 100, 1000, '')],
+        'suites': [('cachepair', 200, 2000, ''), ('cacheqa', 200, 2000, ''), ('cachesa', 200, 2000, ''), ('cachecfg', 100, 1000, ''), ('defaults', 1, 1, '')],
         'rule': CACHE_RULE % "Cache and AsyncCache" + "suite cachepair: every case is one scripted quiescent history (inserts with TTL / costers / validators, updates, lookups, removes, max-cost changes, clock advances, ticks, clear, close, evictions and rejections under tight max_cost) run on Cache and on AsyncCache with the same seeds and the same deterministic internal hasher; each run is compared step by step with the model (flavour flag off / on) and the two runs are compared with each other: every return value, remaining TTL, callback multiset and the full quiescent snapshot (store, expiry buckets, charges, metrics, histogram, sketch, doorkeeper) must be identical; suites cacheqa / cachesa / cachecfg drive the async flavour alone (quiescent, scheduled, every configuration) against the same model as the sync flavour",
         'assumptions': COMMON_ASSUMPTIONS + ["executor: the harness supplies a thread-per-task spawner and steps the two background tasks in every order its scheduler draws; other executors (single-threaded pool, multi-threaded pool) change only which OS thread polls a task between yield points, which the model does not distinguish"],
         'partial': "'any executor supplied as spawner' is runtime behaviour: one spawner (thread per task, block_on) is exercised, with every polling order of the two background tasks at yield-point granularity; 'satisfies every property above' holds because the theorems of C01-C18, C20 are proved for the one transition function that serves both flavours",
